@@ -49,8 +49,8 @@ class C17(Prop):
         "Rust/Miri buffer harness is a separate engine (see evidence key bufsim). non-trivial = the sweep crossed a length-form boundary or the "
         "capacity; distinct = (config, sweep kind, first size, steps)"
     )
-    quick_runs = 500
-    thorough_runs = 8000
+    quick_runs = 1500
+    thorough_runs = 20000
 
     def pre_check(self, tier, seed):
         """Second engine: seeded operation sequences on the real Buffer/BufferPool
